@@ -276,13 +276,61 @@ def replay_file(path: str):
     return False, "violation not reproduced", res.digest, data
 
 
-def replay_in_fresh_process(path: str) -> Tuple[bool, str]:
+def write_replay_from_summary(spec, d, v, path):
+    data = {
+        "forced": d.get("forced"),
+        "property": spec.prop,
+        "harness": spec.harness,
+        "seed": d["seed"],
+        "repo_rev": git_rev(os.environ.get("VERIF_REPO", "/repo")),
+        "choices": list(d["choices"]),
+        "violation": {"clause": v["clause"], "sig": v["sig"], "detail": v["detail"], "digest": d.get("digest")},
+        "config": d.get("config"),
+        "trace": list(d.get("trace", [])),
+    }
+    os.makedirs(os.path.dirname(path), exist_ok=True)
+    with open(path, "w") as f:
+        json.dump(data, f, indent=1, default=str)
+
+
+def settle_replay(path: str) -> bool:
+    """The replay file must reproduce its violation from a clean process, twice, with one digest.
+    The digest stored in the file is the one a clean process produces."""
+    ok, out, digest = replay_in_fresh_process(path, want_digest=False)
+    if not ok:
+        return False
+    with open(path) as f:
+        data = json.load(f)
+    if digest and data["violation"].get("digest") != digest:
+        data["violation"]["digest"] = digest
+        with open(path, "w") as f:
+            json.dump(data, f, indent=1, default=str)
+    ok2, out2, _ = replay_in_fresh_process(path, want_digest=True)
+    return ok2
+
+
+def _replay_in_fresh_process_old(path: str) -> Tuple[bool, str]:
     env = dict(os.environ)
     env["PYTHONHASHSEED"] = "0"
     p = subprocess.run([sys.executable, os.path.join(VERIF, "run_check.py"), "--replay", path],
                        capture_output=True, text=True, timeout=300, env=env)
     ok = p.returncode == 1 and "VIOLATION property=" in p.stdout and "digest=same" in p.stdout
     return ok, p.stdout[-2000:] + p.stderr[-2000:]
+
+
+def replay_in_fresh_process(path: str, want_digest=True):
+    env = dict(os.environ)
+    env["PYTHONHASHSEED"] = "0"
+    p = subprocess.run([sys.executable, os.path.join(VERIF, "run_check.py"), "--replay", path],
+                       capture_output=True, text=True, timeout=300, env=env)
+    ok = p.returncode == 1 and "VIOLATION property=" in p.stdout
+    if want_digest:
+        ok = ok and "digest=same" in p.stdout
+    digest = None
+    for line in p.stdout.splitlines():
+        if line.strip().startswith("digest-value="):
+            digest = line.strip().split("=", 1)[1]
+    return ok, p.stdout[-2000:] + p.stderr[-2000:], digest
 
 
 # --------------------------------------------------------------------------------------
@@ -367,7 +415,8 @@ def run_property(prop: str, tier: str, base_seed: int, workers: int, budget_s: f
                     agg["known_hits"][k["sig"]] += 1
                 else:
                     agg["violations"].append((d, v))
-                    if len(agg["violations"]) >= 3:
+                    sigs = {x[1]["sig"] for x in agg["violations"]}
+                    if len(agg["violations"]) >= 75 or (len(sigs) >= 3 and len(agg["violations"]) >= 40):
                         stop = True
 
     try:
@@ -407,42 +456,68 @@ def run_property(prop: str, tier: str, base_seed: int, workers: int, budget_s: f
         write_evidence(spec, tier, base_seed, agg, wall, 0, harness_error=True)
         return 2
 
-    # unknown violations: minimise, write replay, verify replay in a fresh process
+    # unknown violations: minimise, write replay, verify replay in fresh processes.
+    # Several candidate runs are kept per violation signature: if the code under test keeps state across
+    # runs of one worker process (a cache on a class, a module-level list) a violating run need not
+    # reproduce from a clean process; only a candidate that does is reported.
     reported = 0
-    seen_sigs = set()
+    by_sig = {}
     for d, v in agg["violations"]:
-        if v["sig"] in seen_sigs or len(seen_sigs) >= 3:
-            continue
-        seen_sigs.add(v["sig"])
-        values = d["choices"]
-        forced = d.get("forced")
-        mvals, evals, ok = minimise(spec, values, v["sig"], forced=forced)
-        res, err, ch = run_values(spec, mvals, forced)
-        vio = None
-        if res is not None:
-            for x in own_violations(spec, res):
-                if x.sig == v["sig"]:
-                    vio = x
-        if vio is None:     # minimised list does not reproduce: fall back to the original
-            mvals = values
-            res, err, ch = run_values(spec, mvals, forced)
-            for x in own_violations(spec, res) if res is not None else []:
-                if x.sig == v["sig"]:
-                    vio = x
-        if vio is None:
-            print(f"HARNESS-ERROR property={prop} seed={d['seed']} violation {v['sig']} did not replay "
-                  f"in-process (nondeterminism)")
+        by_sig.setdefault(v["sig"], []).append((d, v))
+    rdir = os.environ.get("VERIF_REPLAY_DIR") or os.path.join(VERIF, "replays")
+    for sig in list(by_sig)[:3]:
+        done = False
+        tried = 0
+        tag = hashlib.md5(sig.encode()).hexdigest()[:6]
+        chosen = None
+        for d, v in by_sig[sig][:25]:
+            tried += 1
+            path = os.path.join(rdir, f"{prop}-{d['seed']}-{tag}.json")
+            write_replay_from_summary(spec, d, v, path)
+            ok, out, digest = replay_in_fresh_process(path, want_digest=False)
+            if ok:
+                chosen = (d, v, path)
+                break
+            try:
+                os.remove(path)
+            except OSError:
+                pass
+        if chosen is not None:
+            d, v, path = chosen
+            values = d["choices"]
+            forced = d.get("forced")
+            # minimise in this process when the run reproduces here too
+            res, err, ch = run_values(spec, values, forced)
+            here = any(x.sig == sig for x in (own_violations(spec, res) if res is not None else []))
+            if here:
+                mvals, evals, ok = minimise(spec, values, sig, forced=forced)
+                res2, err2, ch2 = run_values(spec, mvals, forced)
+                vio2 = None
+                for x in (own_violations(spec, res2) if res2 is not None else []):
+                    if x.sig == sig:
+                        vio2 = x
+                if vio2 is not None:
+                    mpath = path
+                    write_replay(spec, d["seed"], mvals, vio2, res2, mpath, forced)
+                    if settle_replay(mpath):
+                        print(f"violation: {vio2.clause}: {vio2.detail}")
+                        print(f"  seed={d['seed']} choices {len(values)} -> {len(mvals)} after {evals} evaluations")
+                        print(f"VIOLATION property={prop} replay={mpath}")
+                        reported += 1
+                        done = True
+            if not done:
+                write_replay_from_summary(spec, d, v, path)
+                if settle_replay(path):
+                    print(f"violation: {v['clause']}: {v['detail']}")
+                    print(f"  seed={d['seed']} (not minimised: only the original schedule reproduces from a clean process)")
+                    print(f"VIOLATION property={prop} replay={path}")
+                    reported += 1
+                    done = True
+        if not done:
+            print(f"HARNESS-ERROR property={prop} violation {sig} was seen in {len(by_sig[sig])} runs but none of the "
+                  f"{tried} tried reproduces from a clean process (state leaking between runs / nondeterminism)")
+            write_evidence(spec, tier, base_seed, agg, wall, 0, harness_error=True)
             return 2
-        path = os.path.join(os.environ.get("VERIF_REPLAY_DIR") or os.path.join(VERIF, "replays"), f"{prop}-{d['seed']}-{hashlib.md5(v['sig'].encode()).hexdigest()[:6]}.json")
-        write_replay(spec, d["seed"], mvals, vio, res, path, forced)
-        okr, out = replay_in_fresh_process(path)
-        if not okr:
-            print(f"HARNESS-ERROR property={prop} replay {path} did not reproduce in a fresh process:\n{out}")
-            return 2
-        print(f"violation: {vio.clause}: {vio.detail}")
-        print(f"  seed={d['seed']} choices {len(values)} -> {len(mvals)} after {evals} evaluations")
-        print(f"VIOLATION property={prop} replay={path}")
-        reported += 1
     for sig, n in agg["known_hits"].items():
         k = [x for x in known["findings"] if x["sig"] == sig][0]
         print(f"KNOWN-FINDING: property={prop} {k['what']} (seen in {n} runs)")
